@@ -101,6 +101,9 @@ func wideGeoms(ct geom.CoordinatesType) []geom.Geometry {
 }
 
 func (c shapeCase) build() (geom.Geometry, error) {
+	if c.Sup == "huge" {
+		return geom.Geometry{}, fmt.Errorf("the 12000-element cases are replayed by re-running the check")
+	}
 	if c.Sup == "wide" {
 		ws := wideGeoms(geom.CoordinatesType(c.CT))
 		if c.Idx < 0 || c.Idx >= len(ws) {
@@ -400,6 +403,38 @@ func c04Main(r *engine.Run) {
 				c04Scan(r, g, c)
 			}); p != nil {
 				r.Violation("C04/panic", "shape", c, fmt.Sprint(p))
+			}
+		}
+	}
+	// a nested collection that comes after (and before) 12 000 other elements in document order:
+	// encode, decode, compare structurally; Scan into the concrete type
+	{
+		pt := func(i int) geom.Point { return geom.NewPointXY(float64(i%97)+0.5, float64(i/97)) }
+		var many []geom.Point
+		for i := 0; i < 12000; i++ {
+			many = append(many, pt(i))
+		}
+		inner := geom.NewGeometryCollection([]geom.Geometry{pt(3).AsGeometry()}).AsGeometry()
+		for vi, g := range []geom.Geometry{
+			geom.NewGeometryCollection([]geom.Geometry{geom.NewMultiPoint(many).AsGeometry(), inner}).AsGeometry(),
+			geom.NewGeometryCollection([]geom.Geometry{inner, geom.NewMultiPoint(many).AsGeometry()}).AsGeometry(),
+		} {
+			c := shapeCase{Idx: vi, Shape: "collection with a 12000-point MultiPoint and a nested collection", Sup: "huge"}
+			r.States.Add(1)
+			r.Transitions.Add(2)
+			r.Evaluations.Add(1)
+			b := g.AsBinary()
+			h, err := geom.UnmarshalWKB(b)
+			if err != nil {
+				r.Violation("C04/UnmarshalWKB.error", "shape", c, err.Error())
+				continue
+			}
+			if d := refcodec.Diff(refcodec.Describe(g), refcodec.Describe(h)); d != "" {
+				r.Violation("C04/decode.notIdentical", "shape", c, d)
+			}
+			var gc geom.GeometryCollection
+			if err := gc.Scan(b); err != nil {
+				r.Violation("C04/scan.concrete.Scan", "shape", c, err.Error())
 			}
 		}
 	}
